@@ -90,6 +90,12 @@ Atoms == {
     A("calls", FALSE, {"E:CallExpr/func", "E:CallExpr/funclit", "E:CallExpr/variadic", "E:Ellipsis", "I:Call", "I:Extract"}),
     A("generics_call", FALSE, {"E:CallExpr/generic", "E:IndexExpr/generic", "E:IndexListExpr", "I:MultiConvert"}),
     A("generic_local", FALSE, {"E:IndexExpr/generic", "S:DeclStmt/type"}),
+    A("tparam_chan", FALSE, {"T:range/chan", "T:recv", "T:recv/commaok", "T:select", "T:send", "T:close", "T:len"}),
+    A("tparam_bytes_slice", FALSE, {"T:index/bytestring", "T:slice/bytestring", "T:convert/bytestring", "T:append", "T:make/slice",
+                                    "T:copy", "T:index/slice", "T:range/slice", "T:slice/3", "T:clear"}),
+    A("tparam_map_func", FALSE, {"T:range/map", "T:index/map", "T:mapupdate", "T:delete", "T:make/map", "T:call", "T:convert/func"}),
+    A("tparam_ptr_conv", FALSE, {"T:range/arrayptr", "T:index/arrayptr", "T:slice/arrayptr", "T:convert/int", "T:shift", "T:minmax",
+                                 "T:complit", "T:deref"}),
     A("builtin_len_cap", FALSE, {"B:cap", "B:len"}),
     A("builtin_append_copy", FALSE, {"B:append", "B:copy"}),
     A("builtin_make", FALSE, {"B:make", "I:MakeChan", "I:MakeMap", "I:MakeSlice"}),
@@ -161,7 +167,16 @@ IRKindsOptional == {"ConstantSwitch", "DebugRef", "StringLookup", "AggregateCons
                     "ArrayConst", "GenericConst", "ZeroConst"}
 IRKinds == {"I:" \o k : k \in IRKindNames}
 
-Required == StmtForms \cup ExprForms \cup Builtins \cup IRKinds
+\* operations on values whose type is a type parameter: the builder and the analyzers need the core type
+\* (or a uniform type set) of the constraint, whose terms may be listed in any order (`<-chan int | chan int`)
+TParamForms == {
+  "T:range/chan", "T:recv", "T:recv/commaok", "T:select", "T:send", "T:close", "T:len",
+  "T:index/bytestring", "T:slice/bytestring", "T:convert/bytestring", "T:append", "T:make/slice", "T:copy",
+  "T:index/slice", "T:range/slice", "T:slice/3", "T:clear", "T:range/map", "T:index/map", "T:mapupdate",
+  "T:delete", "T:make/map", "T:call", "T:convert/func", "T:range/arrayptr", "T:index/arrayptr",
+  "T:slice/arrayptr", "T:convert/int", "T:shift", "T:minmax", "T:complit", "T:deref" }
+
+Required == StmtForms \cup ExprForms \cup Builtins \cup IRKinds \cup TParamForms
 Covered  == UNION {a.forms : a \in Atoms}
 
 ASSUME Coverage      == Required \subseteq Covered
